@@ -146,8 +146,15 @@ def _scans(ctx):
 
 REPLAY = r'''
 import sys, json, os, asyncio, importlib.util, itertools, heapq
-spec = importlib.util.spec_from_file_location('rl_real', os.path.join(os.environ['VERIF_REPO'], 'hail/python/hailtop/utils/rate_limiter.py'))
-m = importlib.util.module_from_spec(spec); spec.loader.exec_module(m)
+import time as _real_time
+try:
+    spec = importlib.util.spec_from_file_location('rl_real', os.path.join(os.environ['VERIF_REPO'], 'hail/python/hailtop/utils/rate_limiter.py'))
+    m = importlib.util.module_from_spec(spec); spec.loader.exec_module(m)
+except ImportError:
+    # the file no longer loads stand-alone (a relative import): load it as hailtop.utils.rate_limiter of the tree under test
+    from contracts.native import stubimport
+    stubimport.install()
+    m = importlib.import_module('hailtop.utils.rate_limiter')
 class Clock:
     def __init__(self): self.t = 0.0; self.sleepers = []; self.k = 0
     def time(self): return self.t
@@ -158,6 +165,8 @@ async def run(count, window, arrivals, lateness):
     clk = Clock()
     import types
     m.time = types.SimpleNamespace(time=clk.time); m.asyncio = types.SimpleNamespace(sleep=clk.sleep)
+    # any other wall-clock reader the code may reach (helpers reading time.time / time.time_ns of the real module) sees the same clock
+    _real_time.time = clk.time; _real_time.time_ns = lambda: int(round(clk.t * 1e9))
     rl = m.RateLimiter(m.RateLimit(count, window)); admitted = []
     async def user(i):
         async with rl: admitted.append(clk.t)
@@ -181,13 +190,18 @@ async def run(count, window, arrivals, lateness):
     return sorted(admitted)
 res = {'confirmed': False}
 found = False
-for count, window in ((1, 10.0), (2, 10.0)):
-    for arrivals in itertools.combinations_with_replacement((0.0, 1.0, 5.0, 6.0, 7.0, 16.0), 4):
-        for lateness in ((0.0,), (5.0,), (5.0, 0.0), (0.0, 5.0, 0.0)):
+LATE = ((0.0,), (5.0,), (5.0, 0.0), (0.0, 5.0, 0.0))
+CASES = [(c, w, list(a), LATE) for c, w in ((1, 10.0), (2, 10.0)) for a in itertools.combinations_with_replacement((0.0, 1.0, 5.0, 6.0, 7.0, 16.0), 4)]
+# arrivals off the whole-millisecond grid, the second one within the last millisecond before the first expires
+# (sleepers woken 10 us late: an exact wake-up would make the verdict depend on float rounding of oldest + window - now)
+CASES += [(1, 1.0, [0.0009, 1.0002], ((1e-5,),)), (2, 1.0, [0.0009, 0.0009, 1.0002], ((1e-5,),)), (1, 0.5, [0.00075, 0.5005], ((1e-5,),))]
+for count, window, arrivals, lates in CASES:
+    if True:
+        for lateness in lates:
             adm = asyncio.run(run(count, window, list(arrivals), lateness))
             bad = None
             for i, t in enumerate(adm):
-                inwin = [x for x in adm if t - window < x <= t]
+                inwin = [x for x in adm if t - window + 1e-9 < x <= t]
                 if len(inwin) > count: bad = {'window_end': t, 'admissions_in_window': inwin}
             if len(adm) != len(arrivals): bad = {'admitted': len(adm), 'arrived': len(arrivals)}
             if bad:
